@@ -311,6 +311,55 @@ theorem fastPath_dead (ck : Bool) (inTx : Bool) (buf rest more : Bytes) (c : Cmd
         rw [hg.1]
         exact Or.inr ⟨rfl, hg.2⟩
 
+/-- configurations whose recognisers never take (a prefix of) a well-formed command frame: the code
+    as it is (`HEADER_LEN = 14`: off by one, dead for well-formed frames), or — with the repaired
+    recognisers and gate — a user WITHOUT unrestricted key access (`user_has_unrestricted_keys()` is
+    false: neither the fast path nor the collectors are entered) -/
+def DeadCfg (cfg : Config) : Prop :=
+  (cfg.repaired = false ∧ cfg.headerLen = 14) ∨ (cfg.repaired = true ∧ cfg.unrestricted = false)
+
+instance (cfg : Config) : Decidable (DeadCfg cfg) := by unfold DeadCfg; infer_instance
+
+theorem DeadCfg.of14 {cfg : Config} (hr : cfg.repaired = false) (h14 : cfg.headerLen = 14) : DeadCfg cfg :=
+  Or.inl ⟨hr, h14⟩
+
+theorem fastPathC_nil (cfg : Config) (inTx : Bool) : fastPathC cfg inTx [] = .notFast := by
+  unfold fastPathC fastPathR fastPath
+  cases cfg.unrestricted <;> cases cfg.repaired <;> cases inTx <;> simp
+
+theorem fastPathC_dead (cfg : Config) (hd : DeadCfg cfg) (inTx : Bool) (buf rest more : Bytes) (c : Cmd)
+    (h : buf ++ rest = encCmd c ++ more) :
+    fastPathC cfg inTx buf = .notFast ∨ (fastPathC cfg inTx buf = .needMore ∧ buf.length < (encCmd c).length) := by
+  unfold fastPathC
+  cases hd with
+  | inl hd =>
+    rw [hd.1, hd.2]
+    cases cfg.unrestricted with
+    | false => exact Or.inl rfl
+    | true => simpa using fastPath_dead cfg.checked inTx buf rest more c h
+  | inr hd =>
+    rw [hd.2]
+    exact Or.inl rfl
+
+theorem batchGate_dead (cfg : Config) (hd : DeadCfg cfg) (tx : Bool) (fuel : Nat) (buf rest : Bytes) (cmds : List Cmd)
+    (h : buf ++ rest = stream cmds) : batchGate cfg tx fuel buf = some ([], buf) := by
+  unfold batchGate
+  cases hd with
+  | inl hd =>
+    unfold collectGetC collectSetC
+    rw [hd.1, hd.2]
+    simp only [Bool.false_eq_true, if_false]
+    split
+    · rw [collectGet_dead cfg.checked fuel buf rest cmds h]
+      simp only []
+      split
+      · rw [collectSet_dead cfg.checked fuel buf rest cmds h]
+        simp [batchActs]
+      · simp [batchActs]
+    · rfl
+  | inr hd =>
+    simp [hd.1, hd.2]
+
 theorem append_split (a b c d : Bytes) (h : a ++ b = c ++ d) (hl : c.length ≤ a.length) :
     ∃ t, a = c ++ t ∧ d = t ++ b := by
   rw [List.append_eq_append_iff] at h
@@ -344,7 +393,7 @@ theorem append_split' (a b c d : Bytes) (h : a ++ b = c ++ d) (hl : a.length < c
 
 /-- the sequential loop on a buffer that is a prefix of a well-formed stream executes exactly the
     complete frames in it, on the generic path, and keeps the incomplete tail -/
-theorem seqLoop_wf (cfg : Config) (h14 : cfg.headerLen = 14) (hcodec : cfg.codec = codec1) (hdepth : 1 ≤ cfg.env.depth) :
+theorem seqLoop_wf (cfg : Config) (h14 : DeadCfg cfg) (hcodec : cfg.codec = codec1) (hdepth : 1 ≤ cfg.env.depth) :
     ∀ (cmds : List Cmd) (fuel : Nat) (buf rest : Bytes) (inTx : Bool),
       buf ++ rest = stream cmds → buf.length < fuel → Small (stream cmds) →
       (∀ c ∈ cmds, CmdOK cfg c) →
@@ -370,8 +419,7 @@ theorem seqLoop_wf (cfg : Config) (h14 : cfg.headerLen = 14) (hcodec : cfg.codec
           | zero => omega
           | succ d => simp [parseD]
         unfold seqLoop
-        have hfp : fastPath cfg.headerLen cfg.checked inTx [] = .notFast := by
-          unfold fastPath; cases inTx <;> simp
+        have hfp : fastPathC cfg inTx [] = .notFast := fastPathC_nil cfg inTx
         rw [hcodec]
         simp only [hfp, hp, execAll, List.map_nil]
   | cons c cs ih =>
@@ -385,9 +433,8 @@ theorem seqLoop_wf (cfg : Config) (h14 : cfg.headerLen = 14) (hcodec : cfg.codec
       by_cases hle : (encCmd c).length ≤ buf.length
       · -- a complete frame is at the front
         obtain ⟨t, hbt, hrt⟩ := append_split buf rest (encCmd c) (stream cs) h hle
-        have hfp : fastPath cfg.headerLen cfg.checked inTx buf = .notFast := by
-          rw [h14]
-          cases fastPath_dead cfg.checked inTx buf rest (stream cs) c h with
+        have hfp : fastPathC cfg inTx buf = .notFast := by
+          cases fastPathC_dead cfg h14 inTx buf rest (stream cs) c h with
           | inl hh => exact hh
           | inr hh => omega
         have hsb : Small (encCmd c ++ t) := by
@@ -425,8 +472,8 @@ theorem seqLoop_wf (cfg : Config) (h14 : cfg.headerLen = 14) (hcodec : cfg.codec
           cases hh
           exact hlt
         · unfold seqLoop
-          rw [hcodec, h14]
-          cases fastPath_dead cfg.checked inTx buf rest (stream cs) c h with
+          rw [hcodec]
+          cases fastPathC_dead cfg h14 inTx buf rest (stream cs) c h with
           | inl hh =>
             rw [hh]
             simp only []
@@ -447,7 +494,7 @@ theorem stream_len_le (a b : List Cmd) : (stream b).length ≤ (stream (a ++ b))
 
 /-- one `read()` on a well-formed stream: no batching, no fast path, no error — exactly the frames
     that are complete now are executed -/
-theorem onRead_wf (cfg : Config) (h14 : cfg.headerLen = 14) (hcodec : cfg.codec = codec1) (hdepth : 1 ≤ cfg.env.depth)
+theorem onRead_wf (cfg : Config) (h14 : DeadCfg cfg) (hcodec : cfg.codec = codec1) (hdepth : 1 ≤ cfg.env.depth)
     (cmds : List Cmd) (b0 chunk rest : Bytes) (tx : Bool)
     (h : (b0 ++ chunk) ++ rest = stream cmds) (hs : Small (stream cmds))
     (hmx0 : b0.length + chunk.length ≤ cfg.maxBuffer) (hok : ∀ c ∈ cmds, CmdOK cfg c) :
@@ -463,26 +510,15 @@ theorem onRead_wf (cfg : Config) (h14 : cfg.headerLen = 14) (hcodec : cfg.codec 
   unfold onRead
   have hmx : ¬ (b0.length + chunk.length > cfg.maxBuffer) := by omega
   simp only [Bool.false_eq_true, if_false, hmx]
-  have hg := collectGet_dead cfg.checked ((b0 ++ chunk).length + 1) (b0 ++ chunk) rest cmds h
-  have hsd := collectSet_dead cfg.checked ((b0 ++ chunk).length + 1) (b0 ++ chunk) rest cmds h
-  have hgate : batchGate cfg tx ((b0 ++ chunk).length + 1) (b0 ++ chunk) = some ([], b0 ++ chunk) := by
-    unfold batchGate
-    rw [h14]
-    split
-    · rw [hg]
-      simp only []
-      split
-      · rw [hsd]
-        simp [batchActs]
-      · simp [batchActs]
-    · rfl
+  have hgate : batchGate cfg tx ((b0 ++ chunk).length + 1) (b0 ++ chunk) = some ([], b0 ++ chunk) :=
+    batchGate_dead cfg h14 tx _ _ rest cmds h
   rw [hgate]
   simp only []
   rw [e5]
   simp
 
 /-- every `read()` of every segmentation -/
-theorem reads_wf (cfg : Config) (h14 : cfg.headerLen = 14) (hcodec : cfg.codec = codec1) (hdepth : 1 ≤ cfg.env.depth) :
+theorem reads_wf (cfg : Config) (h14 : DeadCfg cfg) (hcodec : cfg.codec = codec1) (hdepth : 1 ≤ cfg.env.depth) :
     ∀ (chunks : List Bytes) (cmds : List Cmd) (b0 : Bytes) (tx : Bool) (acts : List Action),
       b0 ++ chunks.flatten = stream cmds → Small (stream cmds) → (stream cmds).length ≤ cfg.maxBuffer →
       (∀ c ∈ cmds, CmdOK cfg c) →
@@ -527,7 +563,7 @@ theorem reads_wf (cfg : Config) (h14 : cfg.headerLen = 14) (hcodec : cfg.codec =
     of the pipeline so far — cut at any byte — and `rest` is still to come): exactly the commands
     that are complete in what has arrived have been executed, the buffer holds a proper prefix of
     the next frame -/
-theorem reads_wf_prefix (cfg : Config) (h14 : cfg.headerLen = 14) (hcodec : cfg.codec = codec1) (hdepth : 1 ≤ cfg.env.depth) :
+theorem reads_wf_prefix (cfg : Config) (h14 : DeadCfg cfg) (hcodec : cfg.codec = codec1) (hdepth : 1 ≤ cfg.env.depth) :
     ∀ (chunks : List Bytes) (cmds : List Cmd) (b0 rest : Bytes) (tx : Bool) (acts : List Action),
       (b0 ++ chunks.flatten) ++ rest = stream cmds → Small (stream cmds) → (stream cmds).length ≤ cfg.maxBuffer →
       (∀ c ∈ cmds, CmdOK cfg c) →
@@ -587,7 +623,7 @@ theorem flatMap_splitReads_flatten (n : Nat) (segs : List Bytes) :
 /-- MAIN LEMMA of C04: whatever the segmentation, the read size and the batching configuration,
     a connection that receives a well-formed pipeline executes every command exactly once, in
     order, on the generic path -/
-theorem run_wf (cfg : Config) (h14 : cfg.headerLen = 14) (hcodec : cfg.codec = codec1) (hdepth : 1 ≤ cfg.env.depth)
+theorem run_wf (cfg : Config) (h14 : DeadCfg cfg) (hcodec : cfg.codec = codec1) (hdepth : 1 ≤ cfg.env.depth)
     (cmds : List Cmd) (segs : List Bytes) (h : segs.flatten = stream cmds)
     (hs : Small (stream cmds)) (hmax : (stream cmds).length ≤ cfg.maxBuffer)
     (hok : ∀ c ∈ cmds, CmdOK cfg c) :
@@ -621,7 +657,7 @@ theorem splitReads_len (n : Nat) (hn : 1 ≤ n) : ∀ (f : Nat) (seg : Bytes), s
 
 /-- every `read()` of every segmentation, when every frame leaves `read_size - 1` bytes of room
     below `max_buffer_size` (the stream itself may be arbitrarily long) -/
-theorem reads_wf_frames (cfg : Config) (h14 : cfg.headerLen = 14) (hcodec : cfg.codec = codec1) (hdepth : 1 ≤ cfg.env.depth) :
+theorem reads_wf_frames (cfg : Config) (h14 : DeadCfg cfg) (hcodec : cfg.codec = codec1) (hdepth : 1 ≤ cfg.env.depth) :
     ∀ (chunks : List Bytes) (cmds : List Cmd) (b0 : Bytes) (tx : Bool) (acts : List Action),
       b0 ++ chunks.flatten = stream cmds → Small (stream cmds) →
       (∀ c ∈ cmds, (encCmd c).length + cfg.readSize ≤ cfg.maxBuffer + 1) →
@@ -672,7 +708,7 @@ theorem reads_wf_frames (cfg : Config) (h14 : cfg.headerLen = 14) (hcodec : cfg.
 
 /-- NO OVERFLOW BELOW THE LIMIT: a pipeline of any length whose every frame satisfies
     `|frame| + read_size ≤ max_buffer_size + 1` is executed completely, for every segmentation -/
-theorem run_wf_frames (cfg : Config) (h14 : cfg.headerLen = 14) (hcodec : cfg.codec = codec1) (hdepth : 1 ≤ cfg.env.depth)
+theorem run_wf_frames (cfg : Config) (h14 : DeadCfg cfg) (hcodec : cfg.codec = codec1) (hdepth : 1 ≤ cfg.env.depth)
     (hrs : 1 ≤ cfg.readSize)
     (cmds : List Cmd) (segs : List Bytes) (h : segs.flatten = stream cmds)
     (hs : Small (stream cmds)) (hfr : ∀ c ∈ cmds, (encCmd c).length + cfg.readSize ≤ cfg.maxBuffer + 1)
@@ -711,6 +747,25 @@ theorem collectSet_dead' (ck : Bool) (fuel : Nat) (buf rest more : Bytes) (c : C
     | inl hh => rw [hh]
     | inr hh => rw [hh.1]
 
+theorem batchGate_dead' (cfg : Config) (hd : DeadCfg cfg) (tx : Bool) (fuel : Nat) (buf rest more : Bytes) (c : Cmd)
+    (h : buf ++ rest = encCmd c ++ more) : batchGate cfg tx fuel buf = some ([], buf) := by
+  unfold batchGate
+  cases hd with
+  | inl hd =>
+    unfold collectGetC collectSetC
+    rw [hd.1, hd.2]
+    simp only [Bool.false_eq_true, if_false]
+    split
+    · rw [collectGet_dead' cfg.checked fuel buf rest more c h]
+      simp only []
+      split
+      · rw [collectSet_dead' cfg.checked fuel buf rest more c h]
+        simp [batchActs]
+      · simp [batchActs]
+    · rfl
+  | inr hd =>
+    simp [hd.1, hd.2]
+
 /-- outcome of the sequential loop on `stream cmds ++ junk`: either some commands are still
     incomplete (then nothing but complete commands was executed) or all commands were executed
     and whatever the junk caused comes after them -/
@@ -720,7 +775,7 @@ def SeqJunk (cfg : Config) (cmds : List Cmd) (junk : Bytes) (fuel : Nat) (buf re
      (∃ c cs buf' tx', left = c :: cs ∧ buf' ++ rest = stream left ++ junk ∧
         buf'.length < (encCmd c).length ∧ seqLoop cfg fuel buf inTx = (execAll done, buf', tx', false)))
 
-theorem seqLoop_junk (cfg : Config) (h14 : cfg.headerLen = 14) (hcodec : cfg.codec = codec1) (junk : Bytes) :
+theorem seqLoop_junk (cfg : Config) (h14 : DeadCfg cfg) (hcodec : cfg.codec = codec1) (junk : Bytes) :
     ∀ (cmds : List Cmd) (fuel : Nat) (buf rest : Bytes) (inTx : Bool),
       buf ++ rest = stream cmds ++ junk → buf.length < fuel → Small (stream cmds ++ junk) →
       (∀ c ∈ cmds, CmdOK cfg c) → SeqJunk cfg cmds junk fuel buf rest inTx := by
@@ -741,9 +796,8 @@ theorem seqLoop_junk (cfg : Config) (h14 : cfg.headerLen = 14) (hcodec : cfg.cod
     | succ f =>
       by_cases hle : (encCmd c).length ≤ buf.length
       · obtain ⟨t, hbt, hrt⟩ := append_split buf rest (encCmd c) (stream cs ++ junk) h hle
-        have hfp : fastPath cfg.headerLen cfg.checked inTx buf = .notFast := by
-          rw [h14]
-          cases fastPath_dead cfg.checked inTx buf rest (stream cs ++ junk) c h with
+        have hfp : fastPathC cfg inTx buf = .notFast := by
+          cases fastPathC_dead cfg h14 inTx buf rest (stream cs ++ junk) c h with
           | inl hh => exact hh
           | inr hh => omega
         have hsb : Small (encCmd c ++ t) := by
@@ -789,8 +843,8 @@ theorem seqLoop_junk (cfg : Config) (h14 : cfg.headerLen = 14) (hcodec : cfg.cod
           parse1_partial cfg.env c buf ext hokc.1 hext hlt hsc
         refine ⟨[], c :: cs, rfl, Or.inr ⟨c, cs, buf, inTx, rfl, by rw [stream_cons, List.append_assoc]; exact h, hlt, ?_⟩⟩
         unfold seqLoop
-        rw [hcodec, h14]
-        cases fastPath_dead cfg.checked inTx buf rest (stream cs ++ junk) c h with
+        rw [hcodec]
+        cases fastPathC_dead cfg h14 inTx buf rest (stream cs ++ junk) c h with
         | inl hh =>
           rw [hh]
           simp only []
@@ -816,7 +870,7 @@ theorem reads_append (cfg : Config) : ∀ (chunks : List Bytes) (st : St) (acts 
     obtain ⟨tail, ht⟩ := ih (onRead cfg st c).1 (acts ++ (onRead cfg st c).2)
     exact ⟨(onRead cfg st c).2 ++ tail, by rw [ht]; simp⟩
 
-theorem reads_junk (cfg : Config) (h14 : cfg.headerLen = 14) (hcodec : cfg.codec = codec1) (junk : Bytes) :
+theorem reads_junk (cfg : Config) (h14 : DeadCfg cfg) (hcodec : cfg.codec = codec1) (junk : Bytes) :
     ∀ (chunks : List Bytes) (cmds : List Cmd) (b0 : Bytes) (tx : Bool) (acts : List Action),
       b0 ++ chunks.flatten = stream cmds ++ junk → Small (stream cmds ++ junk) →
       (stream cmds ++ junk).length ≤ cfg.maxBuffer → (∀ c ∈ cmds, CmdOK cfg c) →
@@ -850,17 +904,8 @@ theorem reads_junk (cfg : Config) (h14 : cfg.headerLen = 14) (hcodec : cfg.codec
         rw [← h]; simp
       have hmx : ¬ (b0.length + ch.length > cfg.maxBuffer) := by
         simp only [List.length_append] at hlen hmax; omega
-      have hgate : batchGate cfg tx ((b0 ++ ch).length + 1) (b0 ++ ch) = some ([], b0 ++ ch) := by
-        unfold batchGate
-        rw [h14]
-        split
-        · rw [collectGet_dead' cfg.checked _ _ _ _ c h']
-          simp only []
-          split
-          · rw [collectSet_dead' cfg.checked _ _ _ _ c h']
-            simp [batchActs]
-          · simp [batchActs]
-        · rfl
+      have hgate : batchGate cfg tx ((b0 ++ ch).length + 1) (b0 ++ ch) = some ([], b0 ++ ch) :=
+        batchGate_dead' cfg h14 tx _ _ _ _ c h'
       have hread : onRead cfg ⟨b0, tx, false⟩ ch =
           (⟨(seqLoop cfg ((b0 ++ ch).length + 1) (b0 ++ ch) tx).2.1,
             (seqLoop cfg ((b0 ++ ch).length + 1) (b0 ++ ch) tx).2.2.1,
@@ -905,7 +950,7 @@ theorem reads_junk (cfg : Config) (h14 : cfg.headerLen = 14) (hcodec : cfg.codec
 /-- whatever follows a well-formed pipeline — garbage, truncated frames, frames that make the
     recognisers or the decoder panic — and however everything is segmented: the commands of the
     pipeline are executed exactly once, in order, before anything else happens -/
-theorem run_junk (cfg : Config) (h14 : cfg.headerLen = 14) (hcodec : cfg.codec = codec1)
+theorem run_junk (cfg : Config) (h14 : DeadCfg cfg) (hcodec : cfg.codec = codec1)
     (cmds : List Cmd) (junk : Bytes) (segs : List Bytes) (h : segs.flatten = stream cmds ++ junk)
     (hs : Small (stream cmds ++ junk)) (hmax : (stream cmds ++ junk).length ≤ cfg.maxBuffer)
     (hok : ∀ c ∈ cmds, CmdOK cfg c) :
@@ -1027,6 +1072,131 @@ theorem recogSet_no_crash (h : Nat) (buf : Bytes) : recogSet h true buf ≠ .cra
                           rw [slice_some buf _ _ (by omega) (by omega)]
                           simp
 
+theorem recogGetR_no_crash (h : Nat) (buf : Bytes) : recogGetR h buf ≠ .crash := by
+  unfold recogGetR
+  split
+  · simp
+  · split
+    · simp
+    · simp only []
+      split
+      · simp
+      · split
+        · simp
+        · split
+          · simp
+          · split
+            · simp
+            · rename_i keyLen _
+              split
+              · simp
+              · rename_i total ht
+                have := addU2_checked _ _ _ ht
+                split
+                · simp
+                · rename_i hlen
+                  rw [slice_some buf _ _ (by omega) (by omega)]
+                  simp only []
+                  split <;> simp
+
+theorem recogSetR_no_crash (h : Nat) (buf : Bytes) : recogSetR h buf ≠ .crash := by
+  unfold recogSetR
+  split
+  · simp
+  · split
+    · simp
+    · simp only []
+      split
+      · simp
+      · split
+        · simp
+        · split
+          · simp
+          · split
+            · simp
+            · rename_i keyLen _
+              split
+              · simp
+              · rename_i keyEnd vls hke
+                rename_i kcrlf _ _ _ _ _
+                have hke' : keyEnd = h + 1 + kcrlf + 2 + keyLen ∧ vls = keyEnd + 2 ∧ vls < W := by
+                  cases h1 : addU true (h + 1 + kcrlf + 2) keyLen with
+                  | none => simp [h1] at hke
+                  | some e =>
+                    cases h2 : addU true e 2 with
+                    | none => simp [h1, h2] at hke
+                    | some v =>
+                      simp [h1, h2] at hke
+                      obtain ⟨he, hv⟩ := hke
+                      subst he hv
+                      have a1 := addU_checked _ _ _ h1
+                      have a2 := addU_checked _ _ _ h2
+                      exact ⟨a1.1, a2.1, by omega⟩
+                by_cases hnm : buf.length ≤ vls
+                · rw [if_pos hnm]; simp
+                · rw [if_neg hnm]
+                  by_cases h36 : buf[vls]? ≠ some 36
+                  · rw [if_pos h36]; simp
+                  · rw [if_neg h36]
+                    cases hm : memchrCR (buf.drop (vls + 1)) with
+                    | none => simp
+                    | some vcrlf =>
+                      simp only []
+                      split
+                      · simp
+                      · cases hpu : parseUsize ((buf.drop (vls + 1)).take vcrlf) with
+                        | none => simp
+                        | some valLen =>
+                          simp only []
+                          cases hadd : (addU true (vls + 1 + vcrlf + 2) valLen).bind (fun e => addU true e 2) with
+                          | none => simp
+                          | some total =>
+                            simp only []
+                            have ht' := addU2_checked _ _ _ hadd
+                            by_cases hlen : buf.length < total
+                            · rw [if_pos hlen]; simp
+                            · rw [if_neg hlen]
+                              rw [slice_some buf _ keyEnd (by omega) (by omega)]
+                              rw [slice_some buf _ _ (by omega) (by omega)]
+                              simp only []
+                              split <;> simp
+
+theorem collectGetR_ok (h : Nat) : ∀ (f : Nat) (buf : Bytes),
+    ∃ ks r, collectGetR h f buf = some (ks, r) ∧ r.length ≤ buf.length := by
+  intro f
+  induction f with
+  | zero => intro buf; exact ⟨[], buf, rfl, Nat.le_refl _⟩
+  | succ f ih =>
+    intro buf
+    unfold collectGetR
+    cases hr : recogGetR h buf with
+    | get key total =>
+      obtain ⟨ks, r, e1, e2⟩ := ih (buf.drop total)
+      simp only [e1]
+      exact ⟨_, r, rfl, by simp at e2; omega⟩
+    | crash => exact absurd hr (recogGetR_no_crash h buf)
+    | set k v t => exact ⟨[], buf, rfl, Nat.le_refl _⟩
+    | needMore => exact ⟨[], buf, rfl, Nat.le_refl _⟩
+    | notFast => exact ⟨[], buf, rfl, Nat.le_refl _⟩
+
+theorem collectSetR_ok (h : Nat) : ∀ (f : Nat) (buf : Bytes),
+    ∃ ks r, collectSetR h f buf = some (ks, r) ∧ r.length ≤ buf.length := by
+  intro f
+  induction f with
+  | zero => intro buf; exact ⟨[], buf, rfl, Nat.le_refl _⟩
+  | succ f ih =>
+    intro buf
+    unfold collectSetR
+    cases hr : recogSetR h buf with
+    | set key val total =>
+      obtain ⟨ks, r, e1, e2⟩ := ih (buf.drop total)
+      simp only [e1]
+      exact ⟨_, r, rfl, by simp at e2; omega⟩
+    | crash => exact absurd hr (recogSetR_no_crash h buf)
+    | get k t => exact ⟨[], buf, rfl, Nat.le_refl _⟩
+    | needMore => exact ⟨[], buf, rfl, Nat.le_refl _⟩
+    | notFast => exact ⟨[], buf, rfl, Nat.le_refl _⟩
+
 theorem collectGet_ok (h : Nat) : ∀ (f : Nat) (buf : Bytes),
     ∃ ks r, collectGet h true f buf = some (ks, r) ∧ r.length ≤ buf.length := by
   intro f
@@ -1083,11 +1253,32 @@ theorem hasCrash_map_dropped (fs : List Val) : hasCrash (fs.map Action.dropped) 
   | nil => simp [hasCrash]
   | cons x xs ih => simpa [hasCrash] using ih
 
+theorem hasCrash_map_exec_fast (fs : List Val) : hasCrash (fs.map (fun g => Action.exec g .fast)) = false := by
+  induction fs with
+  | nil => simp [hasCrash]
+  | cons x xs ih => simpa [hasCrash] using ih
+
 theorem hasCrash_batchActs (cfg : Config) (fs : List Val) : hasCrash (batchActs cfg fs) = false := by
   unfold batchActs
   split
   · exact hasCrash_map_exec fs
-  · exact hasCrash_map_dropped fs
+  · split
+    · exact hasCrash_map_exec_fast fs
+    · exact hasCrash_map_dropped fs
+
+theorem collectGetC_ok (cfg : Config) (hck : cfg.checked = true) (f : Nat) (buf : Bytes) :
+    ∃ ks r, collectGetC cfg f buf = some (ks, r) ∧ r.length ≤ buf.length := by
+  unfold collectGetC
+  split
+  · exact collectGetR_ok _ f buf
+  · rw [hck]; exact collectGet_ok _ f buf
+
+theorem collectSetC_ok (cfg : Config) (hck : cfg.checked = true) (f : Nat) (buf : Bytes) :
+    ∃ ks r, collectSetC cfg f buf = some (ks, r) ∧ r.length ≤ buf.length := by
+  unfold collectSetC
+  split
+  · exact collectSetR_ok _ f buf
+  · rw [hck]; exact collectSet_ok _ f buf
 
 theorem fastPath_no_crash (h : Nat) (inTx : Bool) (buf : Bytes) : fastPath h true inTx buf ≠ .crash := by
   unfold fastPath
@@ -1102,6 +1293,28 @@ theorem fastPath_no_crash (h : Nat) (inTx : Bool) (buf : Bytes) : fastPath h tru
       | set k v t => simp
       | needMore => simp
 
+theorem fastPathR_no_crash (h : Nat) (inTx : Bool) (buf : Bytes) : fastPathR h inTx buf ≠ .crash := by
+  unfold fastPathR
+  split
+  · simp
+  · split
+    · simp
+    · cases hg : recogGetR h buf with
+      | crash => exact absurd hg (recogGetR_no_crash h buf)
+      | notFast => exact recogSetR_no_crash h buf
+      | get k t => simp
+      | set k v t => simp
+      | needMore => simp
+
+theorem fastPathC_no_crash (cfg : Config) (hck : cfg.checked = true) (inTx : Bool) (buf : Bytes) :
+    fastPathC cfg inTx buf ≠ .crash := by
+  unfold fastPathC
+  split
+  · split
+    · exact fastPathR_no_crash _ _ _
+    · rw [hck]; exact fastPath_no_crash _ _ _
+  · simp
+
 /-- the sequential loop of the repaired code never panics -/
 theorem seqLoop_no_crash (cfg : Config) (hck : cfg.checked = true) (hng : cfg.nameGuard = true) (hcodec : cfg.codec = codec1)
     (hd : maxNesting + 1 ≤ cfg.env.depth) :
@@ -1113,9 +1326,9 @@ theorem seqLoop_no_crash (cfg : Config) (hck : cfg.checked = true) (hng : cfg.na
   | succ f ih =>
     intro buf inTx hs
     unfold seqLoop
-    rw [hck, hcodec]
-    cases hfp : fastPath cfg.headerLen true inTx buf with
-    | crash => exact absurd hfp (fastPath_no_crash _ _ _)
+    rw [hcodec]
+    cases hfp : fastPathC cfg inTx buf with
+    | crash => exact absurd hfp (fastPathC_no_crash cfg hck _ _)
     | get key total =>
       have := ih (buf.drop total) inTx (hs.drop total)
       simp only []
@@ -1158,13 +1371,12 @@ theorem onRead_no_crash (cfg : Config) (hck : cfg.checked = true) (hng : cfg.nam
       have hgate : ∃ a b, batchGate cfg st.inTx ((st.buf ++ chunk).length + 1) (st.buf ++ chunk) = some (a, b) ∧
           hasCrash a = false ∧ b.length ≤ (st.buf ++ chunk).length := by
         unfold batchGate
-        rw [hck]
         split
-        · obtain ⟨ks, r, e1, e2⟩ := collectGet_ok cfg.headerLen ((st.buf ++ chunk).length + 1) (st.buf ++ chunk)
+        · obtain ⟨ks, r, e1, e2⟩ := collectGetC_ok cfg hck ((st.buf ++ chunk).length + 1) (st.buf ++ chunk)
           rw [e1]
           simp only []
           split
-          · obtain ⟨ks2, r2, e3, e4⟩ := collectSet_ok cfg.headerLen ((st.buf ++ chunk).length + 1) r
+          · obtain ⟨ks2, r2, e3, e4⟩ := collectSetC_ok cfg hck ((st.buf ++ chunk).length + 1) r
             rw [e3]
             exact ⟨_, r2, rfl, by simp [hasCrash_append, hasCrash_batchActs], by omega⟩
           · exact ⟨_, r, rfl, hasCrash_batchActs _ _, e2⟩
